@@ -19,7 +19,7 @@ class Result:
     steps: int = 0  # library operations executed with the oracle evaluated after each of them
 
 
-_HEX32 = re.compile(r"[0-9a-f]{32}")
+_HEX32 = re.compile(r"[0-9a-f]{32}|0x[0-9a-f]{6,16}")
 
 
 def scrub(x: Any) -> Any:
